@@ -120,6 +120,15 @@ int cs_addrange(const u8 *a, unsigned char lo, unsigned char hi, u8 *a_out)
     return &r == &A;
 }
 
+// T3 slice: the BODY TEXT of CharacterSet::addRange (cut from the real file at run time into addrange_slice.inc, with
+// `return *this;` -> `return;`), compiled over a plain pointer stand-in for the member `chars_`.  This copy exists only
+// because a loop contract cannot be attached to a C++ member function (DESIGN 2 N-b) and 256 unwound iterations with a
+// symbolic index do not bit-blast in reasonable time; the member function itself runs on concrete arguments in `tables`.
+void cs_addrange_sliced(unsigned char *chars_, unsigned char low, unsigned char high)
+{
+#include "addrange_slice.inc"
+}
+
 // membership and comparison
 int cs_member(const u8 *a, unsigned char c)
 {
